@@ -90,7 +90,7 @@ pub fn run(tier: &str, seed: u64, out: &mut Out) {
             _ => format!("<wxs module=\"m\" src=\"{}\"/><div/>", w),
         };
         let mut g = TmplGroup::new();
-        g.add_tmpl(&b, &src);
+        { crate::util::note_input(&*src); g.add_tmpl(&b, &src) };
         let deps: Vec<String> = if kind == 2 {
             g.script_dependencies(&b).unwrap().collect()
         } else {
@@ -162,7 +162,13 @@ pub fn run_links(tier: &str, seed: u64, out: &mut Out) {
         main_src.push_str(&format!("<include src=\"{}\"/>", inc));
         let (script_path, script_spellings): (&str, &[&str]) = *rng.pick(&[("pages/s", &["s.wxs", "./s", "/pages/s.wxs", "../pages/s"][..]), ("lib/s", &["../lib/s.wxs", "/lib/s", "../lib/./s"][..])]);
         let wxs = rng.pick(script_spellings).to_string();
-        main_src.push_str(&format!("<wxs module=\"m\" src=\"{}\"/>{{{{ m.id }}}}", wxs));
+        // half of the files declare an inline module BEFORE the external one (each reference must stay on its own module)
+        let inline_first = rng.chance(1, 2);
+        if inline_first {
+            main_src.push_str(&format!("<wxs module=\"loc\">exports.id = 'L@inline'</wxs><wxs module=\"m\" src=\"{}\"/>{{{{ m.id }}}}{{{{ loc.id }}}}", wxs));
+        } else {
+            main_src.push_str(&format!("<wxs module=\"m\" src=\"{}\"/>{{{{ m.id }}}}", wxs));
+        }
         for nm in names {
             main_src.push_str(&format!("<template is=\"{}\"/>", nm));
         }
@@ -190,7 +196,7 @@ pub fn run_links(tier: &str, seed: u64, out: &mut Out) {
                 }
             }
             for &i in o {
-                tg.add_tmpl(&files[i].0, &files[i].1);
+                { crate::util::note_input(&*files[i].1); tg.add_tmpl(&files[i].0, &files[i].1) };
             }
             if oi % 2 == 1 {
                 for (p, s) in scripts.iter().rev() {
@@ -201,7 +207,7 @@ pub fn run_links(tier: &str, seed: u64, out: &mut Out) {
         }
         let reg: Vec<String> = files.iter().map(|(p, _, d)| format!("{}:{}", enc(p), d.iter().map(|x| enc(x)).collect::<Vec<_>>().join("+"))).collect();
         let job = serde_json::json!({
-            "kind": "links", "id": gi, "main": main_path, "src": main_src, "bundles": bundles,
+            "kind": "links", "id": gi, "main": main_path, "src": main_src, "bundles": bundles, "inline_first": inline_first,
             "model_args": [enc(main_path), local.iter().map(|x| enc(x)).collect::<Vec<_>>().join("+"),
                            imports.iter().map(|x| enc(x)).collect::<Vec<_>>().join("+"), reg.join(";")],
             "include": [enc(main_path), enc(&inc)], "wxs": [enc(main_path), enc(&wxs)], "script_registered": script_path,
